@@ -59,6 +59,7 @@ CHECKS = {
     "C18": dict(
         pkg="./c18", level="exploration",
         runs=[
+            dict(name="resultreuse", run="^TestPropParseResultReuse$", checks=(3000, 30000), shards=(1, 4), shrinktime="5s"),
             dict(name="queryresp", run="^TestPropQueryResponses$", checks=(1500, 15000), shards=(2, 8), shrinktime="10s"),
             dict(name="codec", run="^(TestPropRefs|TestPropDataValue|TestPropStoreValue|TestPropValueEqual)$", checks=(20000, 200000), shards=(4, 16)),
             dict(name="responses", run="^TestPropResponses$", checks=(8000, 50000), shards=(2, 8)),
